@@ -84,6 +84,10 @@ func (m *Model) applySet(o Op) Exp {
 	case "smembers":
 		var out []string
 		if e := m.setR(tk); e != nil {
+			if len(e.m) > maxBulkRead {
+				m.dev("D16")
+				return Exp{R: rErr("too much batch size")}
+			}
 			out = sortedKeys(e.m)
 		}
 		m.dev("D9")
